@@ -4,6 +4,7 @@ R18.1 IV, CEK, GCM-KW IV, PBES2 salt, generated keys originate at a CSPRNG call 
 R18.2 the requested sizes fold to the sizes the algorithms need
 R18.3 the ephemeral key is generated per recipient on the recipient's curve and stored on the per-call Recipient only
 R18.5 the header objects the library writes p2s / p2c / epk / iv / tag into are per-message objects (never a default-argument or module-level object)
+R18.6 every store to .ephemeral_key is None or a fresh generate_key(...) result
 R18.4 allow-list: `random` only in KeySet.pick_random_key, no seeding; no constant / parameter / field can reach the sinks
 ("pairwise distinct" as such is statistical and not decided)
 """
@@ -447,7 +448,33 @@ def r18_5(ctx) -> None:
     ctx.count("R18.5", n, 5, "stores of per-message header objects")
 
 
+def r18_6(ctx) -> None:
+    """an ephemeral key only ever comes from a generator call made for that recipient: every store to `.ephemeral_key` in the
+    library is None (initial) or the result of generate_key(...) - never a value kept from an earlier recipient / message"""
+    eng = ctx.eng
+    n = 0
+    for fn in eng.prog.all_functions():
+        for node in fn_nodes(fn):
+            tgs = []
+            if isinstance(node, ast.Assign):
+                tgs = node.targets
+            elif isinstance(node, ast.AnnAssign) and node.value is not None:
+                tgs = [node.target]
+            for tg in tgs:
+                if isinstance(tg, ast.Attribute) and tg.attr == "ephemeral_key":
+                    n += 1
+                    vals = resolve_all(eng, fn, node.value)
+                    ok = all(v == "None" or ".generate_key(" in v for v in vals)
+                    ctx.check(ok, "R18.6", fn, node, f"{fn.short} :: {norm(tg)} = {norm(node.value)[:40]}", f"an ephemeral key is assigned from {vals[:2]}: not a key generated for this recipient "
+                              "(a key kept in a cache / dict is shared between recipients or messages)", "None or <key>.generate_key(curve, private=True)", construct=f"ephemeral_key store in {fn.short}")
+            if isinstance(node, ast.Call) and isinstance(node.func, ast.Name) and node.func.id == "setattr" and len(node.args) == 3 and const_value(node.args[1]) == "ephemeral_key":
+                n += 1
+                ctx.fail("R18.6", fn, node, "ephemeral key stored through setattr", construct=f"setattr ephemeral_key in {fn.short}")
+    ctx.count("R18.6", n, 2, "stores to .ephemeral_key")
+
+
 def run(ctx) -> None:
+    ctx.guard(r18_6)
     ctx.guard(r18_1)
     ctx.guard(r18_2)
     ctx.guard(r18_3)
